@@ -16,6 +16,7 @@
   Constants (ZETA, isogenies, Elligator precomputations): C16.
 """
 from arklib import dataflow as DF
+from arklib.poly import Q
 from arklib.facts import op_local, op_place, place_parts, closure_args
 
 EXP = "ark_ff::fields::field_hashers::expander::"
@@ -77,9 +78,28 @@ def root_def(fn, operand, depth=10):
     return ("deep", None)
 
 
-def token(fn, dep, t):
+def _scalar_tok(fn, o):
+    """caller-side description of a one-byte counter argument handed to a helper: its literal value, else 'i'"""
+    e = root_def(fn, o)
+    if e[0] == "const" and "v" in e[1]:
+        return str(e[1]["v"])
+    if e[0] == "arg":
+        return "ARG%d" % e[1]
+    return "i"
+
+
+def token(fn, dep, t, facts=None, fin_helpers=()):
     """provenance class of the data argument of an `update` call"""
     ev = root_def(fn, t["args"][-1])
+    if ev[0] == "call" and ev[1]["f"].get("name") in fin_helpers:
+        return "B0"
+    if ev[0] == "call" and ev[1]["f"].get("name") in ("collect", "from_iter") and facts is not None and ev[1]["args"]:
+        # strxor written as an iterator chain: a.iter().zip(b.iter()).map(|(l, r)| l ^ r).collect()
+        l = op_local(ev[1]["args"][0])
+        calls = [c["f"].get("name") for _, c in dep.calls_in_slice([l])] if l is not None else []
+        xor = any(s2.get("r", {}).get("k") == "bin" and s2["r"]["op"] == "BitXor" for c in facts.closures_of(fn) for _, _, s2 in c.stmts())
+        if "zip" in calls and "map" in calls and xor:
+            return "XOR"
     if ev[0] == "const":
         k = ev[1]
         st = (k.get("static") or "").rsplit("::", 1)[-1]
@@ -113,6 +133,8 @@ def token(fn, dep, t):
             e2 = root_def(fn, o)
             if e2[0] == "rv" and e2[1].get("k") == "bin" and e2[1].get("op") == "BitXor":
                 return "XOR"
+            if e2[0] == "arg":
+                return "I(ARG%d)" % e2[1]
             if e2[0] == "call" and e2[1]["f"].get("name") == "len":
                 return "LEN1"
             l = op_local(o)
@@ -123,21 +145,45 @@ def token(fn, dep, t):
     return "?"
 
 
-def hasher_events(fn, closures=()):
+def hasher_events(fn, facts=None, depth=1, on_arg=False):
+    """order of the data fed to the hash.  Calls of helper functions of the same crate that themselves feed the hasher
+    (a maintainer may extract `update(counter); update(DST'); finalize`) are expanded in place, their argument
+    tokens replaced by the caller's."""
     dep = DF.Dep(fn)
     pos = {b: i for i, b in enumerate(rpo(fn))}
+    helpers = {}
+    if facts is not None and depth > 0:
+        for bb, t, callee in DF.local_callees(facts, fn):
+            sub = hasher_events(callee, facts, depth - 1, on_arg=True)
+            if sub:
+                helpers[id(t)] = (callee, sub)
+    fin_helpers = {c.name for c, sub in helpers.values() if sub and sub[-1] == "FIN"}
     ev = []
     for bb, t in fn.calls():
         n = t["f"].get("name")
-        if n == "update" and (t["f"].get("trait") or "").endswith("Update"):
-            ev.append((pos.get(bb, 1 << 30), token(fn, dep, t)))
-        elif n == "update" and "DST" in (t["f"].get("self_head") or t["f"].get("path", "")):
-            ev.append((pos.get(bb, 1 << 30), "DST'"))
+        p0 = pos.get(bb, 1 << 30)
+        if on_arg and n in ("update", "finalize_fixed_reset", "finalize_fixed"):
+            # a helper is expanded only for what it feeds into the hasher it was handed (not one it owns)
+            is_dst = n == "update" and "DST" in (t["f"].get("self_head") or t["f"].get("path", ""))
+            recv = t["args"][1] if is_dst and len(t["args"]) > 1 else t["args"][0]
+            if root_def(fn, recv)[0] not in ("arg", "argfield"):
+                continue
+        if n == "update" and "DST" in (t["f"].get("self_head") or t["f"].get("path", "")):
+            ev.append((p0, 0, "DST'"))
+        elif id(t) in helpers:
+            callee, sub = helpers[id(t)]
+            for k, e in enumerate(sub):
+                if e.startswith("I(ARG") and e.endswith(")"):
+                    j = int(e[5:-1])
+                    e = "I(%s)" % _scalar_tok(fn, t["args"][j - 1])
+                elif e.startswith("ARG") and e[3:].isdigit():
+                    e = token(fn, dep, {"args": [t["args"][int(e[3:]) - 1]]}, facts, fin_helpers)
+                ev.append((p0, k, e))
+        elif n == "update" and (t["f"].get("trait") or "").endswith("Update"):
+            ev.append((p0, 0, token(fn, dep, t, facts, fin_helpers)))
         elif n in ("finalize_fixed_reset", "finalize_fixed"):
-            ev.append((pos.get(bb, 1 << 30), "FIN"))
-        elif n in ("for_each", "fold") or (n == "next" and False):
-            pass
-    return [e for _, e in sorted(ev, key=lambda x: x[0])]
+            ev.append((p0, 0, "FIN"))
+    return [e for _, _, e in sorted(ev, key=lambda x: (x[0], x[1]))]
 
 
 # ---- map kernels (symbolic evaluation) -------------------------------------------------------------------
@@ -434,9 +480,11 @@ def check_isoexc(res, facts):
             seen.add(sw)
             st.append(sw)
             guards.append(E(f, f.bbs[sw]["t"]["o"]))
+    clo_zero = any(t["f"].get("name") == "is_zero" for c in facts.closures_of(f) for _, t in c.calls())
     for g in guards:
         txt = show(g)
-        if "is_zero" in txt:
+        # the zero test may be spelt over the pair of evaluations: [x_den(x), y_den(x)].iter().any(|d| d.is_zero())
+        if "is_zero" in txt or (clo_zero and ("any(" in txt or "all(" in txt)):
             for d in ("x_map_denominator", "y_map_denominator"):
                 if d in txt:
                     covered.add(d)
@@ -465,7 +513,7 @@ def check_xmd(res, facts):
     if f is None:
         rule.bad("ark_ff|ExpanderXmd::expand", "anchor missing")
     else:
-        ev = hasher_events(f)
+        ev = hasher_events(f, facts)
         # the b_i loop body's xor update may live in a closure (for_each) or an inner loop: both give XOR
         want = ["Z_PAD", "ARG2", "LEN2", "I(0)", "DST'", "FIN", "B0", "I(1)", "DST'", "FIN", "XOR", "I(i)", "DST'", "FIN"]
         names = [t["f"].get("name") for _, t in f.calls()]
@@ -588,16 +636,84 @@ def check_len(res, facts):
         params = {k.get("param") for k in dep.consts_in_slice([l])} if l is not None else set()
         ok_len = muls >= 2 and "extension_degree" in calls and "N" in params
     (rule.ok if ok_len else rule.bad)("ark_ff|DefaultFieldHasher::hash_to_field|len_in_bytes", "requests N * m * L bytes", f.loc)
-    # the innermost closure: offset = L * (j + i*m), from_be_bytes_mod_order on [offset..][..L]
-    inner = [c for c in facts.fns(unit="ws", crate="ark_ff") if c.kind == "Closure" and c.id.startswith(f.id) and any(t["f"].get("name") == "from_be_bytes_mod_order" for _, t in c.calls())]
-    if not inner:
-        rule.bad("ark_ff|DefaultFieldHasher::hash_to_field|slicing", "no big-endian reduction of the per-element bytes found (from_be_bytes_mod_order)", f.loc)
+    # element (i, j) is the big-endian reduction of uniform[L*(j + i*m) .. +L].  Two accepted shapes of the start offset:
+    # the closed form (any nesting of closures), or a running offset advanced by L once per reduction.
+    from rules.c07 import norm, show
+    from rules.c17 import to_q, NotPoly
+    key = "ark_ff|DefaultFieldHasher::hash_to_field|slicing"
+    hosts = [f] + [c for c in facts.fns(unit="ws", crate="ark_ff") if c.kind == "Closure" and c.id.startswith(f.id + "::{closure")]
+    sites = [(h, bb, t) for h in hosts for bb, t in h.calls() if t["f"].get("name") == "from_be_bytes_mod_order"]
+    if len(sites) != 1:
+        rule.bad(key, "expected one big-endian reduction of the per-element bytes (from_be_bytes_mod_order), found %d" % len(sites), f.loc)
         return
-    c = inner[0]
-    ops = [s["r"]["op"].replace("WithOverflow", "") for _, _, s in c.stmts() if s.get("r", {}).get("k") == "bin" and s["r"]["op"].replace("WithOverflow", "") in ("Mul", "Add")]
-    idx = [t for _, t in c.calls() if t["f"].get("name") == "index"]
-    ok = sorted(ops) == ["Add", "Mul", "Mul"] and len(idx) == 2
-    (rule.ok if ok else rule.bad)("ark_ff|DefaultFieldHasher::hash_to_field|slicing", "element bytes = uniform[L*(j + i*m)..][..L], reduced big-endian (ops %s, %d slicings)" % (ops, len(idx)), c.loc)
+    h, hbb, t = sites[0]
+    term = norm(DF.lift_captures(facts, h, DF.expr(h, t["args"][0], depth=40)))
+    L = ("arg", 1, ("len_per_base_elem",))
+    names = {L: "L", ("call", "extension_degree", ()): "m"}
+
+    def leaf(x):
+        if x in names:
+            return names[x]
+        if isinstance(x, tuple) and x and x[0] == "cparam" and not x[3]:
+            return "idx%d" % x[1]
+        if isinstance(x, tuple) and x and x[0] == "phi" and not x[2]:
+            return "phi%d" % x[1]
+        return None
+    start, length, base = Q.const(0), None, term
+    try:
+        while isinstance(base, tuple) and base[0] == "call" and base[1] == "index" and len(base[2]) == 2 and len(base) == 3:
+            rg = base[2][1]
+            if not (isinstance(rg, tuple) and rg[0] == "agg"):
+                break
+            if rg[1] == "RangeFrom":
+                start = start + to_q(rg[2][0], leaf)
+            elif rg[1] == "RangeTo":
+                length = to_q(rg[2][0], leaf)
+            elif rg[1] == "Range":
+                start = start + to_q(rg[2][0], leaf)
+                length = to_q(rg[2][1], leaf) - to_q(rg[2][0], leaf)
+            else:
+                break
+            base = base[2][0]
+    except NotPoly as e:
+        rule.bad(key, "slice bounds are not index polynomials: %s" % e, h.loc)
+        return
+    problems = []
+    if not (isinstance(base, tuple) and base[0] == "call" and base[1] == "expand"):
+        problems.append("the reduced bytes are a window of %s, not of the expander output" % show(base)[:80])
+    if length is None or not length.equals(Q.var("L")):
+        problems.append("window length is %s, expected L = len_per_base_elem" % length)
+    lv = h.id.count("::{closure#")
+    closed = Q.var("L") * (Q.var("idx%d" % lv) + Q.var("idx%d" % (lv - 1)) * Q.var("m")) if lv >= 2 else None
+    how = None
+    if closed is not None and start.equals(closed):
+        how = "uniform[L*(j + i*m)..][..L] (closed form)"
+    else:
+        phis = [v for v in start.vars() if v.startswith("phi")]
+        run = None
+        if len(phis) == 1 and start.equals(Q.var(phis[0])):
+            l = int(phis[0][3:])
+            ds = h.defs().get(l, [])
+            inits = [d for d in ds if d[2] == "assign" and d[3]["r"]["k"] == "use" and "k" in d[3]["r"]["o"] and d[3]["r"]["o"]["k"].get("v") == 0]
+            steps = []
+            for d in ds:
+                if d in inits or d[2] != "assign":
+                    continue
+                try:
+                    q = to_q(norm(DF._from_def(h, d, (), 40, DF.TRANSPARENT, False)), leaf)
+                except NotPoly:
+                    q = None
+                steps.append((d, q))
+            loops = DF.sccs(h)
+            inner = min((scc for scc in loops if hbb in scc), key=len, default=None)
+            if len(inits) == 1 and len(steps) == 1 and steps[0][1] is not None and steps[0][1].equals(Q.var(phis[0]) + Q.var("L")) \
+                    and inner is not None and steps[0][0][0] in inner and not any(inits[0][0] in scc for scc in loops):
+                run = True
+        if run:
+            how = "running offset: starts at 0 outside the loops, advanced by L once per reduction in the same innermost loop"
+        else:
+            problems.append("start offset is %s: neither L*(j + i*m) nor a running offset advanced by L per element" % start)
+    (rule.bad if problems else rule.ok)(key, "; ".join(problems) if problems else "element bytes = %s, reduced big-endian" % how, h.loc)
 
 
 def check_sgn0(res, facts):
